@@ -77,7 +77,7 @@ def gen_cases(ctx):
                                            {"remove_completed_machine_nodes": False,
                                             "remove_completed_job_nodes": False}]),
                "filter": rng.choice(["default", "default", {"names": ["non_idle_machines"], "form": "function"},
-                                     {"names": ["non_immediate_machines"], "form": "function"}]),
+                                     {"names": ["non_immediate_machines"], "form": "function"}, None]),
                "padding": True, "seed": rng.randrange(2**31)}
 
 
